@@ -1,9 +1,17 @@
 import BeyondVerif.Model.Tle
 
 /-!
-Kernel-checked counter-witnesses (`decide`) for clauses of C12 that the current code — and therefore the model,
-which is faithful to it — falsifies. Each is replayed on the implementation by the oracle of `harness/props/C12.py`
-and recorded in `known_findings.d/C12.json`.
+Kernel-checked facts (`decide`) about concrete inputs on which an earlier version of beyond/io/tle.py falsified a
+clause of C12. The four defects were repaired in /repo (1de1dcf, 7d01f12, 900dafc, f1c2a4f); the model follows the
+repaired code, so each former counter-witness is now restated as the positive fact, on the same input.
+
+History (statements that were proved here against the old code and are now false):
+* `leading_blank_accepted_misparsed` : `parseTle [l1, ' ' :: l2]` had revolution number 15635 instead of 56353
+  (validity was checked on the stripped line, the columns were cut from the unstripped one).
+* `from_string_loses_valid_entry` : `fromString [l1, '1' :: l2.drop 1, m1, m2]` yielded nothing
+  (an orphan line 1 stayed in the cache and spoiled the next entry).
+* `ecc_rounds_to_zero` : `fromOrbit almostParabolic` was a valid TLE with eccentricity field `0000000`.
+* (no theorem) `checkValidity [l1] = .error .indexError`.
 -/
 namespace BeyondVerif.C12W
 open BeyondVerif.Tle
@@ -13,32 +21,33 @@ def l2 : Str := "2 25544  51.6416 247.4627 0006703 130.5360 325.0288 15.72125391
 def m1 : Str := "1 00014U          19071.50347758  .00025823  00000-0  22146-2 0  9999".toList
 def m2 : Str := "2 00014  51.3262 117.7468 2910898 126.0686 264.6106  9.45290855184708".toList
 
-/-- the reference TLE reads revolution number 56353 … -/
+/-- the reference TLE reads revolution number 56353 -/
 theorem reference_revs : (parseTle [l1, l2]).toOption.map (·.revs) = some 56353 := by decide
 
-/-- … and with one blank in front of its second line (a line of the wrong length, 70 characters) the text is still
-accepted and the revolution number becomes 15635 (finding C12-leading-blank-misparsed): `_check_validity` strips,
-the column slices do not. -/
-theorem leading_blank_accepted_misparsed :
-    (' ' :: l2).length = 70 ∧ (parseTle [l1, ' ' :: l2]).toOption.map (·.revs) = some 15635 := by decide
+/-- blanks around a line are harmless: the text is accepted and read from the stripped lines (1de1dcf) -/
+theorem leading_blank_now_harmless :
+    (parseTle [l1, ' ' :: l2]).toOption.map (fun p => (p.revs, p.text)) = some (56353, [l1, l2]) ∧
+    (parseTle [' ' :: ' ' :: l1 ++ [' '], l2]).toOption.map (fun p => (p.norad, p.text)) = some (25544, [l1, l2]) := by decide
 
-/-- two valid entries are both yielded … -/
 theorem from_string_two_entries : ((fromString [l1, l2, m1, m2]).out.map (·.norad)) = [25544, 14] := by decide
 
-/-- … but when the line number of the first entry's second line is corrupted from `2` to `1`, the valid second
-entry is lost as well (finding C12-from-string-stale-line1) -/
-theorem from_string_loses_valid_entry :
-    (parseTle [m1, m2]).toOption.isSome = true ∧ (fromString [l1, '1' :: l2.drop 1, m1, m2]).out = [] := by decide
-
-/-- an orbit whose eccentricity rounds to 1.0000000 is written with the field `0000000` … -/
-theorem ecc_field_of_one : fmtEcc 10000000 = "0000000".toList ∧ fmtEcc 0 = "0000000".toList := by decide
+/-- the entry after one whose second line number was corrupted from `2` to `1` is yielded (7d01f12) -/
+theorem from_string_keeps_valid_entry :
+    ((fromString [l1, '1' :: l2.drop 1, m1, m2]).out.map (fun p => (p.norad, p.name))) = [(14, [])] := by decide
 
 def almostParabolic : Rec :=
   { name := [], norad := 25544, cospar := "98067A".toList, yy := 8, day8 := 26451782528, ndotNeg := true, ndot8 := 2182,
     ndd := .zero, bstar := .val true 11606 (-4), elnb := 292, inc4 := 516416, raan4 := 2474627, ecc7 := 10000000,
     argp4 := 1305360, ma4 := 3250288, mm8 := 1572125391, revs := 56353 }
 
-/-- … so `from_orbit` returns a valid TLE of a circular orbit (finding C12-eccentricity-rounds-to-one) -/
-theorem ecc_rounds_to_zero : (fromOrbit almostParabolic).toOption.map (·.ecc.mant) = some 0 := by decide
+/-- an eccentricity that prints as 1.0000000 is refused (900dafc); one unit below it is written as 9999999 -/
+theorem ecc_one_refused :
+    (match fromOrbit almostParabolic with | .error .eccentricity => true | _ => false) = true ∧
+    (fromOrbit { almostParabolic with ecc7 := 9999999 }).toOption.map (·.ecc.mant) = some 9999999 := by decide
+
+/-- a text with fewer than two lines is a parse error, not an IndexError (f1c2a4f) -/
+theorem missing_line_is_parse_error :
+    (match parseTle [l1] with | .error (.lineCount 1) => true | _ => false) = true ∧
+    (match parseTle [] with | .error (.lineCount 0) => true | _ => false) = true := by decide
 
 end BeyondVerif.C12W
